@@ -93,7 +93,8 @@ def check(rep, spec):
     """spec: points, soma (list|None), bf, furcations, exclude_soma, sort, cls ('cuntz'|'mst')"""
     from swcgeom.transforms.mst import PointsToCuntzMST, PointsToMST
 
-    pts = np.array(spec["points"], dtype=np.float64)
+    f32 = spec.get("dtype") == "float32"  # the declared input dtype of the transform; far from the origin its resolution is coarse
+    pts = np.array(spec["points"], dtype=np.float32 if f32 else np.float64)
     soma, bf, K, ex, sort, cls = spec["soma"], spec["bf"], spec["furcations"], spec["exclude_soma"], spec["sort"], spec["cls"]
     carrier = "PointsToCuntzMST.__call__"
     try:
@@ -174,12 +175,12 @@ def check(rep, spec):
     length = sum(dist(P[j], P[parent[j]]) for j in range(n) if parent[j] >= 0)
     if eff_bf == 0 and K == -1:
         want = kruskal_length(P)
-        if abs(length - want) > 1e-6 * max(1.0, want):
+        if abs(length - want) > (1e-3 if f32 else 1e-6) * max(1.0, want):
             rep(carrier, "mst-length", spec, f"total length {length:.9f}, parent table {parent[:20]}", f"minimum spanning tree length {want:.9f}")
 
     # greedy choice
     sim, order, gap = simulate(P, eff_bf, K, ex)
-    if sim is not None and gap > 1e-9 and sim != parent:
+    if sim is not None and gap > (1e-2 if f32 else 1e-9) and sim != parent:
         j = next(j for j in order if sim[j] != parent[j])
         rep(carrier, "greedy-balanced-choice", spec, f"point {j} attached to {parent[j]}; parent table {parent[:24]}",
             f"point {j} attached to {sim[j]} (minimises edge + {eff_bf} * path length among connected, non-saturated points); table {sim[:24]}")
@@ -249,11 +250,25 @@ def run(ctx):
             if gap is not None and gap <= 1e-9:
                 ties += 1
             ctx.case("random-cloud", dict(n=n, first=list(pts[0]), cfg=list(cfg), soma=soma is not None, sort=sort))
+    # clouds far from the origin in single precision (coordinates ~1e3, spacing ~1): inter-point distances are still exact to
+    # ~1e-4 when computed from coordinate differences; the clauses are the same (near ties below 1e-2 are not compared)
+    for r in range(24 if quick else 200):
+        n = rng.randint(4, 24)
+        off = [rng.choice([1000.0, -2500.0, 4000.0]) for _ in range(3)]
+        pts = [tuple(float(np.float32(off[a] + rng.uniform(0, 9))) for a in range(3)) for _ in range(n)]
+        soma = tuple(float(np.float32(off[a] + rng.uniform(0, 9))) for a in range(3)) if r % 2 else None
+        for cfg in (CONFIGS[0], CONFIGS[1 + r % (len(CONFIGS) - 1)]):
+            sp = mk_spec(pts, soma, cfg, bool(r % 3))
+            sp["dtype"] = "float32"
+            gap = check(rep, sp)
+            if gap is not None and gap <= 1e-2:
+                ties += 1
+            ctx.case("far-cloud-float32", dict(n=n, first=list(pts[0]), cfg=list(cfg), soma=soma is not None))
     if ties:
         ctx.notes.append(f"{ties} cases met a near tie (< 1e-9) in the greedy simulation; their parent tables were not compared")
     ctx.rule(f"every subset of 2..{kmax} points of a generically perturbed 3x3x2 grid (rotating first point, soma given for a third, sort on/off alternating) with the plain-MST "
              f"configuration and one rotating configuration out of {len(CONFIGS)} (class, bf in 0..1, branching limit in -1,1,2,3, root exempt or not); {nrand} seeded random clouds of 2..{nmaxpts} "
-             "points x 4-5 configurations, every second one on a transform object that was first applied to a 2-point cloud. Non-trivial = every case (>= 2 points).", exhaustive=False)
+             "points x 4-5 configurations, every second one on a transform object that was first applied to a 2-point cloud; float32 clouds of 4..24 points offset by ~1e3 from the origin. Non-trivial = every case (>= 2 points).", exhaustive=False)
 
 
 def replay(spec):
